@@ -502,8 +502,9 @@ H("C03", "patch", "c03_chunk_framing_eof_and_apply", tier="thorough", unwind=12,
 H("C03", "patch", "c03p_pipeline_witness", expect="witness-fail", unwind=10, bounds="assert(false) twin")
 
 # attempts at the remaining gaps (thorough tier, time-boxed; see DESIGN.md section 8)
-H("C14", "mtrl", "c14_dye_table_kind_dispatch", tier="thorough", unwind=40, timeout=1800, bounds="dye table kind for table_dimension_logs in {0x00, 0x50, 0x5F, 0x42}: Dawntrail kind = 32 rows / 128 bytes, legacy = 16 rows / 32 bytes, other = opaque / 0 bytes; all table bytes symbolic",
-  encodes=["mtrl::parse_color_dye_table"], cbmc_args=FS256)
+for n in ("5f", "50", "legacy", "opaque"):
+    H("C14", "mtrl", "c14_dye_table_kind_" + n, tier="thorough", unwind=40, timeout=1200, bounds="dye table kind for table_dimension_logs = " + n + ": Dawntrail = 32 rows / 128 bytes, legacy = 16 rows / 32 bytes, other = opaque / 0 bytes; all table bytes symbolic",
+      encodes=["mtrl::parse_color_dye_table"], cbmc_args=FS256)
 H("C15", "repository", "c15_filenames_noloop_concrete", tier="thorough", unwind=4, timeout=1200, kani_args=["--no-assertion-reach-checks"],
   bounds="0a/ex1/chunk2/ps3/dat3 (concrete) with unwind 4 and loop-free comparisons", encodes=["repository::Repository::index_filename", "repository::Repository::dat_filename", "alloc::fmt::format (real)"],
   no_cover="fully concrete harness without assumptions")
@@ -520,3 +521,10 @@ H("C05", "exd", "c05_language_ids_and_codes", unwind=10, timeout=300, bounds="al
 
 H("C02", "sqpack_data", "c02_texture_file_two_mips", unwind=24, timeout=900, bounds="texture entry: 16 header bytes, mip 0 = 2 raw blocks (padded 128 / 256), mip 1 = 2 raw blocks; all header and content bytes symbolic",
   encodes=["sqpack::data::SqPackData::read_texture_file", "sqpack::read_data_block"], stubs=_MF, cbmc_args=FS1K)
+
+# C06: whole-file parse of a generated minimal model (possible since the binrw counted-vector model)
+H("C06", "model", "c06_from_existing_minimal_model", tier="quick", unwind=80, timeout=2400,
+  bounds="minimal v5 model: 1 LOD, 1 mesh, declaration {Position Single3, UV Single4 (stream 0); UV Half2, Color ByteFloat4 (stream 1)}, 2 vertices, 3 indices, 1 sub-mesh, 1 material name; all 78 vertex / index buffer bytes symbolic",
+  encodes=["model::MDL::from_existing", "model::ModelData (binrw)", "model_vertex_declarations::vertex_element_parser", "model_file_operations readers"],
+  stubs=_HALFSTUB, cbmc_args=FS1K, kani_args=["--no-assertion-reach-checks"],
+  no_cover="harness without any kani::assume (both vertices and all stream bytes are enumerated); cover!/reachability checks dropped because trace generation on the 3.6 M-variable formula ran out of memory")
